@@ -1,6 +1,6 @@
 (* C11 proofs, part 3: the library's builders, the user agent's reading of
    their output, and the property predicate on the model. *)
-From OIDC Require Import Lib C11_Url C11_Html C11_spec C11_Url_proofs C11_Html_proofs.
+From OIDC Require Import Lib C11_Url C11_Html C11_spec C11_Overlap C11_Url_proofs C11_Html_proofs.
 
 (* ---------- AuthResponseURL picks the channel the client expects ---------- *)
 Lemma auth_response_url_channel u rt rm p :
@@ -295,7 +295,7 @@ Proof.
 Qed.
 
 Lemma strip_idem i : strip (strip i) = strip i.
-Proof. induction i; try reflexivity. exact IHi2. Qed.
+Proof. induction i; try reflexivity; exact IHi2. Qed.
 
 Lemma spec_flow red p rt rm st ss :
   wf_base (IFlow red p rt rm st ss) = true ->
@@ -316,11 +316,54 @@ Theorem history_independent prev n i :
   model (IAfter prev n i) = model i /\ (forall o, spec (IAfter prev n i) o = spec i o).
 Proof. split; reflexivity. Qed.
 
+(* two calls overlapping in time: what is owed for a request and what the model
+   answers do not depend on the other call *)
+Theorem overlap_independent other i :
+  model (IOverlap other i) = model i /\ (forall o, spec (IOverlap other i) o = spec i o).
+Proof. split; reflexivity. Qed.
+
+(* the error object a callback encodes holds its own request's values, for every
+   schedule of any number of callbacks, when each call works on its own object *)
+Lemma per_call_isolated_gen req s : forall written m,
+  (forall c, In c written -> m (S c) = req c) ->
+  program_order written s = true ->
+  own_values req (run_sched PerCall req m s).
+Proof.
+  unfold own_values.
+  induction s as [|[c|c] s IH]; intros written m Hinv Hpo; cbn [run_sched program_order] in *.
+  - constructor.
+  - apply (IH (c :: written)); [|exact Hpo].
+    intros c' Hin. unfold upd, cell_of.
+    destruct (Nat.eqb (S c') (S c)) eqn:E.
+    + apply Nat.eqb_eq in E. injection E as ->. reflexivity.
+    + destruct Hin as [-> | Hin]; [rewrite Nat.eqb_refl in E; discriminate E | now apply Hinv].
+  - apply andb_true_iff in Hpo as [Hw Hpo].
+    apply existsb_exists in Hw as [x [Hin Hx]]. apply Nat.eqb_eq in Hx. subst x.
+    constructor; [cbn [fst snd cell_of]; now apply Hinv | now apply (IH written)].
+Qed.
+
+Theorem per_call_isolated req m s :
+  program_order [] s = true -> own_values req (run_sched PerCall req m s).
+Proof. apply per_call_isolated_gen. intros c []. Qed.
+
+(* one shared error object: the crossed schedule hands callback 0 the state of
+   callback 1 (and callback 1's missing session_state) *)
+Theorem shared_object_refuted :
+  exists req m s, program_order [] s = true /\ ~ own_values req (run_sched Shared req m s).
+Proof.
+  exists (fun c => if Nat.eqb c 0 then ("sA", "ssA") else ("sB", "")), (fun _ => ("", "")), sched_crossed.
+  split; [reflexivity|]. unfold own_values. cbn. intros H. inversion H as [|? ? H0 _]. cbn in H0. discriminate H0.
+Qed.
+
+Example driven_schedules_in_program_order :
+  program_order [] sched_nested = true /\ program_order [] sched_crossed = true.
+Proof. split; reflexivity. Qed.
+
 Theorem spec_model_partial i : wf i = true -> spec i (model i) = true.
 Proof.
   unfold wf, spec, model. generalize (strip i). clear i. intros i.
   destruct i as [red [u|] rt rm r | red r | red [u|] rt rm c st ss | red [u|] rt rm e d st ss dis
-                 | red p rt rm st ss | prev n i']; try apply spec_flow;
+                 | red p rt rm st ss | other i' | prev n i']; try apply spec_flow;
     cbn [wf_base spec_base model_base]; intros Hwf; try reflexivity; try discriminate Hwf.
   - apply url_spec_model, Hwf.
   - apply andb_true_iff in Hwf as [Hwf He]. apply andb_true_iff in Hwf as [Hs Hc].
